@@ -65,6 +65,7 @@ type VC struct {
 	boolDef    map[string]string // definitions of named Bool terms (reach conditions)
 	written    map[string]bool   // heap maps written somewhere in this function (incl. inlined callees, callee frames)
 	noDef      int
+	noOblige   int
 	ufs        map[string][2]interface{}
 	modelTerms []modelTerm
 	replay     *replayInfo
@@ -260,6 +261,10 @@ func (vc *VC) instancesFor(sks []string, sorts []string, ndecl int) []string {
 }
 
 func (vc *VC) oblige(kind, pc, goal, note string) *Obligation {
+	if vc.noOblige > 0 {
+		// inside the evaluation of a contract expression (apply): no obligations
+		return &Obligation{Name: "suppressed", vc: vc, Result: "unsat"}
+	}
 	vc.counters[kind]++
 	name := kind
 	if n := vc.counters[kind]; n > 1 || strings.HasSuffix(kind, "#") {
